@@ -83,6 +83,16 @@ class C20(PropBase):
         scn["victim_mode"] = "worker-death" if scn["victim"].get("exec") == "process" and rng.chance(0.5) else "kill"
         from .execsim import gen_cmdline_suppressions
         scn["suppr"] = gen_cmdline_suppressions(rng, proj["units"]) if rng.chance(0.5) else []
+        if scn["victim_mode"] == "worker-death" and rng.chance(0.7):
+            # put the fault where in-flight state exists: cache files that are large when the worker dies (library-test functions:
+            # many entries), and end-of-run work of the parent on exactly those files (unmatched file-specific suppressions are
+            # appended to the cache file of their file)
+            used = set()
+            for u in proj["units"]:
+                prelude, picks = gen.corpus_chunks(rng, scn["langs"][u], rng.randint(8, 20), used)
+                scn["tree"][u] = [prelude] + scn["tree"][u] + picks
+                scn["suppr"].append("--suppress=neverReported%d:%s" % (len(scn["suppr"]), u))
+            scn["opts"]["--enable"] = rng.choice(["--enable=style,information", "--enable=all"])
         return scn
 
     # ------------------------------------------------------------------
@@ -262,6 +272,9 @@ class C20(PropBase):
                     "edit between: %s" % (scn["edit"]["desc"] if scn.get("edit") else "none")] + core.fmt_diff(oa, ob, "after-kill", "fresh")
                 if kind == K9_KIND and rec.get("exec", "j1") == "j1":   # K9 needs the single-job recovery run (in-memory + build-dir analysis)
                     sig = K9_KIND + " after a killed run"
+                elif kind == "extra-unmatchedSuppression" and okind == "worker-death":
+                    # known finding K15, see known_findings.json
+                    sig = "a false unmatchedSuppression report for the file of a dead worker is written to that file's (valid) cache entry and replayed by later runs"
                 elif kind == "extra-unmatchedSuppression" and any(x.startswith("--suppress=unmatchedSuppression") for x in scn.get("suppr", [])):
                     # known finding K14, see known_findings.json
                     sig = "unmatchedSuppression reports that a suppression of unmatchedSuppression hides in a fresh run reappear when findings are replayed from the cache"
